@@ -30,7 +30,7 @@ def main(argv):
         except ImportError:
             netscen = None
         if netscen is not None:
-            for i in range(max(10, n // 10)):
+            for i in range(max(24, n // 4)):
                 name, trace = netscen.scenario(random.Random(f"C03-net:{seed}:{shard}:{i}"))
                 out["net"].append(hashlib.sha256(
                     json.dumps(common.canon(trace), sort_keys=True).encode()).hexdigest()[:20])
